@@ -126,6 +126,7 @@ pcgstrf_bmod2D(
 	if ( kfnz == EMPTY ) continue;	/* Skip any zero segment */
 	    
 	segsze = krep - kfnz + 1;
+	SLU_MT_VERIF_EVENT(SLU_EV_UPD_STEP, pnum, jj, kfnz, krep, 0);
 	luptr = xlusup[fsupc];
 
 	Gstat->procstat[pnum].fcops += flopcnt;
